@@ -320,7 +320,7 @@ def run(chk):
     # ---- A + B ----------------------------------------------------------------------------
     progs = [("template:" + n, s) for n, s in T.items()]
     g = Gen(rng)
-    n_gen = 150 if chk.tier == "quick" else 3000
+    n_gen = 150 if chk.tier == "quick" else 12000
     for i in range(n_gen):
         progs.append(("generated:%d" % i, g.program()))
     reqs, index = [], []
@@ -366,7 +366,7 @@ def run(chk):
 
     # ---- C: ledger-event programs against sync_result evaluated in Coq ------------------------
     lprogs = []
-    n_l = 120 if chk.tier == "quick" else 480
+    n_l = 120 if chk.tier == "quick" else 2400
     while len(lprogs) < n_l:
         prog, markers, awaited = [], 0, set()
         for _ in range(1 + rng.below(6)):
